@@ -2,6 +2,8 @@ package main
 
 import (
 	"bufio"
+	"fmt"
+	"strconv"
 	"encoding/base64"
 	"encoding/json"
 	"os"
@@ -12,6 +14,7 @@ import (
 )
 
 type c03In struct {
+	Custom bool  `json:"custom"` // register custom dice (a regex one and a stream parser whose Display differs from the consumed text)
 	B64   string `json:"b64"`
 	Pre   string `json:"pre"` // base64 history program
 	Flags []bool `json:"flags"`
@@ -56,9 +59,54 @@ type c03Run struct {
 	Spans [][2]int64        `json:"spans"`
 }
 
-func c03Once(src, pre string, flags []bool, hi, lo uint64) (r c03Run) {
+// custom dice used by the C03 / C17 checks: `E<digits>` (regex, value 2n) and `C<digits>T<digits>` (stream parser; value a+b;
+// Display is the canonical spelling without leading zeros, i.e. possibly shorter than the consumed text)
+func regCustom(vm *ds.Context) {
+	_ = vm.RegCustomDice(`E(\d+)`, func(ctx *ds.Context, groups []string, payload any) (*ds.VMValue, string, error) {
+		n, _ := strconv.Atoi(groups[1])
+		return ds.NewIntVal(ds.IntType(2 * n)), "", nil
+	})
+	_ = vm.RegCustomDiceParser(func(ctx *ds.Context, st *ds.CustomDiceStream) (*ds.CustomDiceParseResult, error) {
+		readNum := func() (int, bool) {
+			n, k := 0, 0
+			for {
+				r, ok := st.Peek()
+				if !ok || r < '0' || r > '9' {
+					break
+				}
+				st.Read()
+				n = n*10 + int(r-'0')
+				k++
+			}
+			return n, k > 0
+		}
+		if r, ok := st.Read(); !ok || r != 'C' {
+			return nil, nil
+		}
+		a, ok := readNum()
+		if !ok {
+			return nil, nil
+		}
+		if r, ok := st.Read(); !ok || r != 'T' {
+			return nil, nil
+		}
+		b, ok := readNum()
+		if !ok {
+			return nil, nil
+		}
+		return &ds.CustomDiceParseResult{Matched: true, Display: fmt.Sprintf("C%dT%d", a, b), Payload: [2]int{a, b}}, nil
+	}, func(ctx *ds.Context, groups []string, payload any) (*ds.VMValue, string, error) {
+		p := payload.([2]int)
+		return ds.NewIntVal(ds.IntType(p[0] + p[1])), "", nil
+	})
+}
+
+func c03Once(src, pre string, flags []bool, hi, lo uint64, custom bool) (r c03Run) {
 	cfg := cfgFromFlags(flags)
 	vm := newVM(cfg, hi, lo, true)
+	if custom {
+		regCustom(vm)
+	}
 	if pre != "" {
 		_ = runScript(vm, pre, false)
 		vm.RandSrc = mkSrc(hi, lo)
@@ -91,10 +139,10 @@ func init() {
 			pre, _ := base64.StdEncoding.DecodeString(in.Pre)
 			var hi, lo uint64
 			hi, lo = parseU(in.Hi), parseU(in.Lo)
-			a := c03Once(string(raw), string(pre), in.Flags, hi, lo)
+			a := c03Once(string(raw), string(pre), in.Flags, hi, lo, in.Custom)
 			row := map[string]any{"full": a}
 			if a.Out.Ok {
-				b := c03Once(a.Out.Matched, string(pre), in.Flags, hi, lo)
+				b := c03Once(a.Out.Matched, string(pre), in.Flags, hi, lo, in.Custom)
 				row["alone"] = b
 				row["split_ok"] = a.Out.Matched+a.Out.Rest == string(raw)
 				row["same_val"] = reflect.DeepEqual(a.Out.Val, b.Out.Val) && a.Out.Ok == b.Out.Ok
@@ -103,7 +151,7 @@ func init() {
 					// Go map iteration order leaks into str(dict)/keys() (recorded under C06): if re-running the
 					// SAME text gives differing output, the difference is not about the tail
 					for k := 0; k < 5; k++ {
-						b2 := c03Once(a.Out.Matched, string(pre), in.Flags, hi, lo)
+						b2 := c03Once(a.Out.Matched, string(pre), in.Flags, hi, lo, in.Custom)
 						if b2.Out.Detail != b.Out.Detail || b2.Out.Str != b.Out.Str {
 							row["unstable"] = true
 							break
